@@ -35,7 +35,10 @@ def default_name(cname):
 
 def class_source(c, classes):
     """Python source of one generated task class."""
-    lines = [f"class {c['cname']}(Task):", '    class Meta:']
+    # meta_base: the Meta class derives from the Meta of another generated class and inherits input_tasks and parameters
+    # from it (the case spells them out for the model and the reference; the source leaves them to inheritance)
+    inherits = c.get('meta_base') is not None
+    lines = [f"class {c['cname']}(Task):", f"    class Meta({classes[c['meta_base']]['cname']}.Meta):" if inherits else '    class Meta:']
     if c['group']:
         lines.append(f"        task_group = {c['group']!r}")
     if c.get('name'):
@@ -47,7 +50,8 @@ def class_source(c, classes):
     metas = []
     for r in c['meta_inputs']:
         metas.append(repr(r['name']) if 'name' in r else classes[r['cls']]['cname'])
-    lines.append(f"        input_tasks = [{', '.join(metas)}]")
+    if not inherits:
+        lines.append(f"        input_tasks = [{', '.join(metas)}]")
     params = []
     for d in c['params']:
         kw = [repr(d['name'])]
@@ -68,7 +72,8 @@ def class_source(c, classes):
             params.append(f"InputTaskParameter({ref}, default=_mat({i['default'][0]!r}))")
         else:
             params.append(f"InputTaskParameter({ref})")
-    lines.append(f"        parameters = [{', '.join(params)}]")
+    if not inherits:
+        lines.append(f"        parameters = [{', '.join(params)}]")
     ret = {'json': 'dict', 'memory': 'dict', 'dir': 'DirData', 'continues': 'ContinuesData', 'numpy': 'np.ndarray',
            'pandas': 'pd.DataFrame', 'generated': 'Generator', 'listnumpy': 'list'}.get(c['data'], 'dict')
     if c['data'] == 'memory':
